@@ -139,255 +139,93 @@ theorem SpectralAnalyzer_spectrum_multi_taper_twosided_is_true_grid (pi Fs : ℚ
 example : eval Grids.periodogram_onesided 3 10 5 = [0, 2, 4] := by decide +kernel
 example : eval Grids.periodogram_twosided 3 10 4 = [0, 5/2, 5, 15/2] := by decide +kernel
 
-/-! ### one-sided sites that today use `linspace(0, Fs/2, N//2+1)`: right for even N only.
-After the repair (`np.fft.rfftfreq(N) * Fs`) replace the pair by
-`theorem <site>_is_true_grid … := intended_onesided_is_true_grid pi Fs N`. -/
+/-! ### sites repaired by the C05 fixes: full theorems (all Fs, all N, both parities) -/
 
-section half
-variable (pi Fs : ℚ) (N : ℕ)
-
-theorem periodogram_csd_onesided_partial (h : Even N) :
+theorem periodogram_csd_onesided_is_true_grid (pi Fs : ℚ) (N : ℕ) :
     eval Grids.periodogram_csd_onesided pi Fs N = trueOneSided Fs N :=
-  (eval_half_floordiv pi Fs N).trans (linspace_half_is_true Fs N h)
-theorem periodogram_csd_onesided_counterexample :
-    eval Grids.periodogram_csd_onesided pi 1 5 ≠ trueOneSided 1 5 := by
-  rw [show eval Grids.periodogram_csd_onesided pi 1 5 = _ from eval_half_floordiv pi 1 5]
-  exact linspace_half_wrong_of_odd 1 one_ne_zero 5 (by decide) (by norm_num)
+  intended_onesided_is_true_grid pi Fs N
 
-theorem multi_taper_psd_onesided_partial (h : Even N) :
+theorem multi_taper_psd_onesided_is_true_grid (pi Fs : ℚ) (N : ℕ) :
     eval Grids.multi_taper_psd_onesided pi Fs N = trueOneSided Fs N :=
-  (eval_half_floordiv pi Fs N).trans (linspace_half_is_true Fs N h)
-theorem multi_taper_psd_onesided_counterexample :
-    eval Grids.multi_taper_psd_onesided pi 1 5 ≠ trueOneSided 1 5 := by
-  rw [show eval Grids.multi_taper_psd_onesided pi 1 5 = _ from eval_half_floordiv pi 1 5]
-  exact linspace_half_wrong_of_odd 1 one_ne_zero 5 (by decide) (by norm_num)
+  intended_onesided_is_true_grid pi Fs N
 
-theorem multi_taper_csd_onesided_partial (h : Even N) :
+theorem multi_taper_csd_onesided_is_true_grid (pi Fs : ℚ) (N : ℕ) :
     eval Grids.multi_taper_csd_onesided pi Fs N = trueOneSided Fs N :=
-  (eval_half_floordiv pi Fs N).trans (linspace_half_is_true Fs N h)
-theorem multi_taper_csd_onesided_counterexample :
-    eval Grids.multi_taper_csd_onesided pi 1 5 ≠ trueOneSided 1 5 := by
-  rw [show eval Grids.multi_taper_csd_onesided pi 1 5 = _ from eval_half_floordiv pi 1 5]
-  exact linspace_half_wrong_of_odd 1 one_ne_zero 5 (by decide) (by norm_num)
+  intended_onesided_is_true_grid pi Fs N
 
-theorem SpectralAnalyzer_spectrum_multi_taper_onesided_partial (h : Even N) :
+theorem SpectralAnalyzer_spectrum_multi_taper_onesided_is_true_grid (pi Fs : ℚ) (N : ℕ) :
     eval Grids.SpectralAnalyzer_spectrum_multi_taper_onesided pi Fs N = trueOneSided Fs N :=
-  (eval_half_floordiv pi Fs N).trans (linspace_half_is_true Fs N h)
-theorem SpectralAnalyzer_spectrum_multi_taper_onesided_counterexample :
-    eval Grids.SpectralAnalyzer_spectrum_multi_taper_onesided pi 1 5 ≠ trueOneSided 1 5 := by
-  rw [show eval Grids.SpectralAnalyzer_spectrum_multi_taper_onesided pi 1 5 = _ from eval_half_floordiv pi 1 5]
-  exact linspace_half_wrong_of_odd 1 one_ne_zero 5 (by decide) (by norm_num)
+  intended_onesided_is_true_grid pi Fs N
 
-theorem MTCoherenceAnalyzer_frequencies_partial (h : Even N) :
+theorem MTCoherenceAnalyzer_frequencies_is_true_grid (pi Fs : ℚ) (N : ℕ) :
     eval Grids.MTCoherenceAnalyzer_frequencies pi Fs N = trueOneSided Fs N :=
-  (eval_half_floordiv pi Fs N).trans (linspace_half_is_true Fs N h)
-theorem MTCoherenceAnalyzer_frequencies_counterexample :
-    eval Grids.MTCoherenceAnalyzer_frequencies pi 1 5 ≠ trueOneSided 1 5 := by
-  rw [show eval Grids.MTCoherenceAnalyzer_frequencies pi 1 5 = _ from eval_half_floordiv pi 1 5]
-  exact linspace_half_wrong_of_odd 1 one_ne_zero 5 (by decide) (by norm_num)
+  intended_onesided_is_true_grid pi Fs N
 
-theorem SNRAnalyzer_mt_frequencies_partial (h : Even N) :
+theorem SNRAnalyzer_mt_frequencies_is_true_grid (pi Fs : ℚ) (N : ℕ) :
     eval Grids.SNRAnalyzer_mt_frequencies pi Fs N = trueOneSided Fs N :=
-  (eval_half_floordiv pi Fs N).trans (linspace_half_is_true Fs N h)
-theorem SNRAnalyzer_mt_frequencies_counterexample :
-    eval Grids.SNRAnalyzer_mt_frequencies pi 1 5 ≠ trueOneSided 1 5 := by
-  rw [show eval Grids.SNRAnalyzer_mt_frequencies pi 1 5 = _ from eval_half_floordiv pi 1 5]
-  exact linspace_half_wrong_of_odd 1 one_ne_zero 5 (by decide) (by norm_num)
+  intended_onesided_is_true_grid pi Fs N
 
-/-! the same through `utils.get_freqs` (`int(n/2+1)` points) -/
+theorem get_spectra_multi_taper_csd_onesided_is_true_grid (pi Fs : ℚ) (N : ℕ) :
+    eval Grids.get_spectra_multi_taper_csd_onesided pi Fs N = trueOneSided Fs N :=
+  intended_onesided_is_true_grid pi Fs N
 
-theorem get_freqs_partial (h : Even N) : eval Grids.get_freqs pi Fs N = trueOneSided Fs N :=
-  (eval_half_int pi Fs N).trans (linspace_half_is_true Fs N h)
-theorem get_freqs_counterexample : eval Grids.get_freqs pi 1 5 ≠ trueOneSided 1 5 := by
-  rw [show eval Grids.get_freqs pi 1 5 = _ from eval_half_int pi 1 5]
-  exact linspace_half_wrong_of_odd 1 one_ne_zero 5 (by decide) (by norm_num)
+theorem get_spectra_periodogram_csd_onesided_is_true_grid (pi Fs : ℚ) (N : ℕ) :
+    eval Grids.get_spectra_periodogram_csd_onesided pi Fs N = trueOneSided Fs N :=
+  intended_onesided_is_true_grid pi Fs N
 
-theorem cache_fft_partial (h : Even N) : eval Grids.cache_fft pi Fs N = trueOneSided Fs N :=
-  (eval_half_int pi Fs N).trans (linspace_half_is_true Fs N h)
-theorem cache_fft_counterexample : eval Grids.cache_fft pi 1 5 ≠ trueOneSided 1 5 := by
-  rw [show eval Grids.cache_fft pi 1 5 = _ from eval_half_int pi 1 5]
-  exact linspace_half_wrong_of_odd 1 one_ne_zero 5 (by decide) (by norm_num)
+theorem get_freqs_is_true_grid (pi Fs : ℚ) (N : ℕ) :
+    eval Grids.get_freqs pi Fs N = trueOneSided Fs N :=
+  intended_onesided_int_is_true_grid pi Fs N
 
-theorem correlation_spectrum_partial (h : Even N) :
+theorem cache_fft_is_true_grid (pi Fs : ℚ) (N : ℕ) :
+    eval Grids.cache_fft pi Fs N = trueOneSided Fs N :=
+  intended_onesided_int_is_true_grid pi Fs N
+
+theorem correlation_spectrum_is_true_grid (pi Fs : ℚ) (N : ℕ) :
     eval Grids.correlation_spectrum pi Fs N = trueOneSided Fs N :=
-  (eval_half_int pi Fs N).trans (linspace_half_is_true Fs N h)
-theorem correlation_spectrum_counterexample :
-    eval Grids.correlation_spectrum pi 1 5 ≠ trueOneSided 1 5 := by
-  rw [show eval Grids.correlation_spectrum pi 1 5 = _ from eval_half_int pi 1 5]
-  exact linspace_half_wrong_of_odd 1 one_ne_zero 5 (by decide) (by norm_num)
+  intended_onesided_int_is_true_grid pi Fs N
 
-theorem SparseCoherenceAnalyzer_frequencies_partial (h : Even N) :
+theorem SparseCoherenceAnalyzer_frequencies_is_true_grid (pi Fs : ℚ) (N : ℕ) :
     eval Grids.SparseCoherenceAnalyzer_frequencies pi Fs N = trueOneSided Fs N :=
-  (eval_half_int pi Fs N).trans (linspace_half_is_true Fs N h)
-theorem SparseCoherenceAnalyzer_frequencies_counterexample :
-    eval Grids.SparseCoherenceAnalyzer_frequencies pi 1 5 ≠ trueOneSided 1 5 := by
-  rw [show eval Grids.SparseCoherenceAnalyzer_frequencies pi 1 5 = _ from eval_half_int pi 1 5]
-  exact linspace_half_wrong_of_odd 1 one_ne_zero 5 (by decide) (by norm_num)
+  intended_onesided_int_is_true_grid pi Fs N
 
-theorem SeedCoherenceAnalyzer_frequencies_partial (h : Even N) :
+theorem SeedCoherenceAnalyzer_frequencies_is_true_grid (pi Fs : ℚ) (N : ℕ) :
     eval Grids.SeedCoherenceAnalyzer_frequencies pi Fs N = trueOneSided Fs N :=
-  (eval_half_int pi Fs N).trans (linspace_half_is_true Fs N h)
-theorem SeedCoherenceAnalyzer_frequencies_counterexample :
-    eval Grids.SeedCoherenceAnalyzer_frequencies pi 1 5 ≠ trueOneSided 1 5 := by
-  rw [show eval Grids.SeedCoherenceAnalyzer_frequencies pi 1 5 = _ from eval_half_int pi 1 5]
-  exact linspace_half_wrong_of_odd 1 one_ne_zero 5 (by decide) (by norm_num)
+  intended_onesided_int_is_true_grid pi Fs N
 
-theorem SpectralAnalyzer_spectrum_fourier_real_partial (h : Even N) :
+theorem SpectralAnalyzer_spectrum_fourier_real_is_true_grid (pi Fs : ℚ) (N : ℕ) :
     eval Grids.SpectralAnalyzer_spectrum_fourier_real pi Fs N = trueOneSided Fs N :=
-  (eval_half_int pi Fs N).trans (linspace_half_is_true Fs N h)
-theorem SpectralAnalyzer_spectrum_fourier_real_counterexample :
-    eval Grids.SpectralAnalyzer_spectrum_fourier_real pi 1 5 ≠ trueOneSided 1 5 := by
-  rw [show eval Grids.SpectralAnalyzer_spectrum_fourier_real pi 1 5 = _ from eval_half_int pi 1 5]
-  exact linspace_half_wrong_of_odd 1 one_ne_zero 5 (by decide) (by norm_num)
+  intended_onesided_int_is_true_grid pi Fs N
 
-theorem FilterAnalyzer_filtered_fourier_partial (h : Even N) :
+theorem FilterAnalyzer_filtered_fourier_is_true_grid (pi Fs : ℚ) (N : ℕ) :
     eval Grids.FilterAnalyzer_filtered_fourier pi Fs N = trueOneSided Fs N :=
-  (eval_half_int pi Fs N).trans (linspace_half_is_true Fs N h)
-theorem FilterAnalyzer_filtered_fourier_counterexample :
-    eval Grids.FilterAnalyzer_filtered_fourier pi 1 5 ≠ trueOneSided 1 5 := by
-  rw [show eval Grids.FilterAnalyzer_filtered_fourier pi 1 5 = _ from eval_half_int pi 1 5]
-  exact linspace_half_wrong_of_odd 1 one_ne_zero 5 (by decide) (by norm_num)
+  intended_onesided_int_is_true_grid pi Fs N
 
-end half
+theorem periodogram_csd_twosided_is_true_grid (pi Fs : ℚ) (N : ℕ) :
+    eval Grids.periodogram_csd_twosided pi Fs N = trueTwoSided Fs N :=
+  intended_twosided_is_true_grid pi Fs N
 
-example : eval Grids.get_freqs 3 10 4 = [0, 5/2, 5] := by decide +kernel
-example : eval Grids.get_freqs 3 10 5 = [0, 5/2, 5] ∧ trueOneSided 10 5 = [0, 2, 4] := by decide +kernel
+theorem get_spectra_multi_taper_csd_twosided_is_true_grid (pi Fs : ℚ) (N : ℕ) :
+    eval Grids.get_spectra_multi_taper_csd_twosided pi Fs N = trueTwoSided Fs N :=
+  intended_twosided_is_true_grid pi Fs N
 
-/-! ### `periodogram_csd`, two-sided: `linspace(0, Fs/2, N, endpoint=False)` covers `[0, Fs/2)` -/
+theorem get_spectra_periodogram_csd_twosided_is_true_grid (pi Fs : ℚ) (N : ℕ) :
+    eval Grids.get_spectra_periodogram_csd_twosided pi Fs N = trueTwoSided Fs N :=
+  intended_twosided_is_true_grid pi Fs N
 
-theorem periodogram_csd_twosided_partial (pi Fs : ℚ) (N : ℕ) :
-    eval Grids.periodogram_csd_twosided pi Fs N = trueTwoSided (Fs / 2) N := by
-  simp only [eval, Grids.periodogram_csd_twosided, GridExpr.evalEnv, AExpr.evalN, AExpr.eval, count_n]
-  have := linspace_full_noendpoint_is_true (Fs / 2) N
-  simpa using this
+theorem SpectralAnalyzer_spectrum_fourier_complex_is_true_grid (pi Fs : ℚ) (N : ℕ) :
+    eval Grids.SpectralAnalyzer_spectrum_fourier_complex pi Fs N = trueShifted Fs N :=
+  intended_shifted_is_true_grid pi Fs N
 
-theorem periodogram_csd_twosided_counterexample (pi : ℚ) :
-    eval Grids.periodogram_csd_twosided pi 1 4 ≠ trueTwoSided 1 4 := by
-  rw [periodogram_csd_twosided_partial]; decide +kernel
+theorem GrangerAnalyzer_frequencies_is_true_grid (pi Fs : ℚ) (N : ℕ) :
+    eval Grids.GrangerAnalyzer_frequencies pi Fs N = trueFreqz Fs (N / 2 + 1) :=
+  intended_freqz_is_true_grid pi Fs N
 
-/-! ### `get_spectra`, non-Welch branch: a grid already in Hz goes through `circle_to_hz` again -/
+example : eval Grids.get_freqs 3 10 5 = [0, 2, 4] := by decide +kernel
 
-theorem get_spectra_multi_taper_csd_twosided_partial (pi Fs : ℚ) (N : ℕ) :
-    eval Grids.get_spectra_multi_taper_csd_twosided pi Fs N
-      = (trueTwoSided Fs N).map (fun f => f * Fs / (2 * pi)) := by
-  rw [← multi_taper_csd_twosided_is_true_grid pi Fs N]
-  simp [eval, Grids.get_spectra_multi_taper_csd_twosided, Grids.multi_taper_csd_twosided,
-    GridExpr.evalEnv, AExpr.eval, List.map_map, Function.comp_def]
+example : eval Grids.GrangerAnalyzer_frequencies 3 1 4 = [0, 1/6, 1/3] := by decide +kernel
 
-/-- reported bin 1 is `Fs²/(2πN)` instead of `Fs/N`, whatever value in (3, 4) `np.pi` has -/
-theorem get_spectra_multi_taper_csd_twosided_counterexample (pi : ℚ) (h3 : 3 < pi) (h4 : pi < 4) :
-    eval Grids.get_spectra_multi_taper_csd_twosided pi 10 4 ≠ trueTwoSided 10 4 := by
-  rw [get_spectra_multi_taper_csd_twosided_partial]
-  intro h
-  have h1 := congrArg (fun l => l[1]?) h
-  have hlen : 1 < 4 := by norm_num
-  simp only [trueTwoSided, List.map_map, List.getElem?_map, List.getElem?_range hlen, Option.map_some,
-    Option.some.injEq, Function.comp] at h1
-  have hp : (2 * pi) ≠ 0 := by linarith
-  field_simp at h1
-  linarith
-
-theorem get_spectra_multi_taper_csd_onesided_partial (pi Fs : ℚ) (N : ℕ) :
-    eval Grids.get_spectra_multi_taper_csd_onesided pi Fs N
-      = (eval Grids.multi_taper_csd_onesided pi Fs N).map (fun f => f * Fs / (2 * pi)) := by
-  simp [eval, Grids.get_spectra_multi_taper_csd_onesided, Grids.multi_taper_csd_onesided,
-    GridExpr.evalEnv, List.map_map, Function.comp_def, AExpr.eval]
-
-theorem get_spectra_multi_taper_csd_onesided_counterexample (pi : ℚ) (h3 : 3 < pi) (h4 : pi < 4) :
-    eval Grids.get_spectra_multi_taper_csd_onesided pi 10 4 ≠ trueOneSided 10 4 := by
-  rw [get_spectra_multi_taper_csd_onesided_partial,
-    multi_taper_csd_onesided_partial pi 10 4 (by decide)]
-  intro h
-  have h1 := congrArg (fun l => l[1]?) h
-  have hlen : 1 < 4 / 2 + 1 := by norm_num
-  simp only [trueOneSided, List.map_map, List.getElem?_map, List.getElem?_range hlen, Option.map_some,
-    Option.some.injEq, Function.comp] at h1
-  have hp : (2 * pi) ≠ 0 := by linarith
-  field_simp at h1
-  linarith
-
-theorem get_spectra_periodogram_csd_onesided_partial (pi Fs : ℚ) (N : ℕ) :
-    eval Grids.get_spectra_periodogram_csd_onesided pi Fs N
-      = (eval Grids.periodogram_csd_onesided pi Fs N).map (fun f => f * Fs / (2 * pi)) := by
-  simp [eval, Grids.get_spectra_periodogram_csd_onesided, Grids.periodogram_csd_onesided,
-    GridExpr.evalEnv, List.map_map, Function.comp_def, AExpr.eval]
-
-theorem get_spectra_periodogram_csd_onesided_counterexample (pi : ℚ) (h3 : 3 < pi) (h4 : pi < 4) :
-    eval Grids.get_spectra_periodogram_csd_onesided pi 10 4 ≠ trueOneSided 10 4 := by
-  rw [get_spectra_periodogram_csd_onesided_partial,
-    periodogram_csd_onesided_partial pi 10 4 (by decide)]
-  intro h
-  have h1 := congrArg (fun l => l[1]?) h
-  have hlen : 1 < 4 / 2 + 1 := by norm_num
-  simp only [trueOneSided, List.map_map, List.getElem?_map, List.getElem?_range hlen, Option.map_some,
-    Option.some.injEq, Function.comp] at h1
-  have hp : (2 * pi) ≠ 0 := by linarith
-  field_simp at h1
-  linarith
-
-theorem get_spectra_periodogram_csd_twosided_partial (pi Fs : ℚ) (N : ℕ) :
-    eval Grids.get_spectra_periodogram_csd_twosided pi Fs N
-      = (eval Grids.periodogram_csd_twosided pi Fs N).map (fun f => f * Fs / (2 * pi)) := by
-  simp [eval, Grids.get_spectra_periodogram_csd_twosided, Grids.periodogram_csd_twosided,
-    GridExpr.evalEnv, List.map_map, Function.comp_def, AExpr.eval]
-
-theorem get_spectra_periodogram_csd_twosided_counterexample (pi : ℚ) (h3 : 3 < pi) (h4 : pi < 4) :
-    eval Grids.get_spectra_periodogram_csd_twosided pi 10 4 ≠ trueTwoSided 10 4 := by
-  rw [get_spectra_periodogram_csd_twosided_partial, periodogram_csd_twosided_partial]
-  intro h
-  have h1 := congrArg (fun l => l[1]?) h
-  have hlen : 1 < 4 := by norm_num
-  simp only [trueTwoSided, List.map_map, List.getElem?_map, List.getElem?_range hlen, Option.map_some,
-    Option.some.injEq, Function.comp] at h1
-  have hp : (2 * pi) ≠ 0 := by linarith
-  field_simp at h1
-  linarith
-
-/-! ### complex `spectrum_fourier`: `linspace(-Fs/2, Fs/2, N)` is not the axis of `fftshift(fft(x))` -/
-
-theorem SpectralAnalyzer_spectrum_fourier_complex_counterexample (pi : ℚ) :
-    eval Grids.SpectralAnalyzer_spectrum_fourier_complex pi 1 4 ≠ trueShifted 1 4 ∧
-    eval Grids.SpectralAnalyzer_spectrum_fourier_complex pi 1 5 ≠ trueShifted 1 5 := by
-  have e : ∀ N : ℕ, eval Grids.SpectralAnalyzer_spectrum_fourier_complex pi 1 N
-      = linspace (-1 / 2) (1 / 2) N true := by
-    intro N
-    simp [eval, Grids.SpectralAnalyzer_spectrum_fourier_complex, GridExpr.evalEnv, AExpr.evalN,
-      AExpr.eval, count_n]
-  rw [e, e]; constructor <;> decide +kernel
-
-/-- only the first entry (`-Fs/2`) is right, and only for even N -/
-theorem SpectralAnalyzer_spectrum_fourier_complex_partial (pi Fs : ℚ) (N : ℕ) (h : Even N) (hN : 0 < N) :
-    (eval Grids.SpectralAnalyzer_spectrum_fourier_complex pi Fs N)[0]? = (trueShifted Fs N)[0]? := by
-  obtain ⟨m, rfl⟩ := h
-  have hm : (m + m) / 2 = m := by omega
-  have hmq : (m : ℚ) ≠ 0 := by
-    have : 0 < m := by omega
-    exact_mod_cast this.ne'
-  simp only [eval, Grids.SpectralAnalyzer_spectrum_fourier_complex, GridExpr.evalEnv, AExpr.evalN,
-    AExpr.eval, count_n, linspace, trueShifted, List.getElem?_map, List.getElem?_range hN, hm,
-    Option.map_some, Option.some.injEq]
-  push_cast
-  field_simp
-  ring
-
-/-! ### `GrangerAnalyzer.frequencies`: `get_freqs(Fs, n_freqs)` includes the Nyquist point, the
-`freqz` grid the causality values are computed on (`n_freqs//2+1` points of `[0, Fs/2)`) does not -/
-
-theorem GrangerAnalyzer_frequencies_counterexample (pi : ℚ) :
-    eval Grids.GrangerAnalyzer_frequencies pi 1 4 ≠ trueFreqz 1 (4 / 2 + 1) := by
-  rw [show eval Grids.GrangerAnalyzer_frequencies pi 1 4 = _ from eval_half_int pi 1 4]
-  decide +kernel
-
-/-- same number of points, same first point; the spacing is `Fs/(2⌊n/2⌋)` instead of `Fs/(2⌊n/2⌋+2)` -/
-theorem GrangerAnalyzer_frequencies_partial (pi Fs : ℚ) (N : ℕ) :
-    (eval Grids.GrangerAnalyzer_frequencies pi Fs N).length = (trueFreqz Fs (N / 2 + 1)).length ∧
-    (eval Grids.GrangerAnalyzer_frequencies pi Fs N)[0]? = (trueFreqz Fs (N / 2 + 1))[0]? := by
-  rw [show eval Grids.GrangerAnalyzer_frequencies pi Fs N = _ from eval_half_int pi Fs N]
-  have h0 : 0 < N / 2 + 1 := by omega
-  simp [linspace, trueFreqz]
-
-example : trueFreqz 1 3 = [0, 1/6, 1/3] ∧ eval Grids.GrangerAnalyzer_frequencies 3 1 4 = [0, 1/4, 1/2] := by
-  decide +kernel
+example : eval Grids.SpectralAnalyzer_spectrum_fourier_complex 3 1 4 = [-1/2, -1/4, 0, 1/4] := by decide +kernel
 
 /-! ### band selection -/
 
@@ -426,7 +264,7 @@ example : getBounds (trueOneSided 10 5) 2 (some 4) = (1, 3) ∧ sliceBand (trueO
 /-- `cache_fft(…, lb, ub)` caches the band `[lb_idx, ub_idx)` but returns ALL frequencies next to it;
 after the repair (`return freqs[lb_idx:ub_idx], cache`) this becomes
 `theorem cache_fft_returns_band : Grids.cache_fft_sliced = some true := rfl` -/
-theorem cache_fft_returns_band_counterexample : Grids.cache_fft_sliced = some false := rfl
+theorem cache_fft_returns_band : Grids.cache_fft_sliced = some true := rfl
 
 /-! ### a sinusoid on bin k0 peaks at bin k0 (and only there) -/
 
